@@ -467,17 +467,22 @@ def replay(case):
     return dict(violation=v) if v else None
 
 
-def run(ctx):
-    from ..runner import finish, chunks
-    maxh = 2 if ctx.tier == 'quick' else 3
+def call_cases(maxh):
+    """The product of the I(obj) cases (shared with C10)."""
     hooklists = [()]
     for k in range(1, maxh + 1):
         hooklists += list(itertools.product(HOOK, repeat=k))
     # an interface with a custom __adapt__ never reaches the hooks: three hook
     # lists are enough to see that none is called
-    cases = [('call', c) for c in itertools.product(ADAPT[:4], CONF, PROVIDED, hooklists, ALT)]
-    cases += [('call', c) for c in itertools.product(ADAPT[4:], CONF, PROVIDED,
-                                                      [(), ('v',), ('raise', 'v')], ALT)]
+    out = list(itertools.product(ADAPT[:4], CONF, PROVIDED, hooklists, ALT))
+    out += list(itertools.product(ADAPT[4:], CONF, PROVIDED, [(), ('v',), ('raise', 'v')], ALT))
+    return out
+
+
+def run(ctx):
+    from ..runner import finish, chunks
+    maxh = 2 if ctx.tier == 'quick' else 3
+    cases = [('call', c) for c in call_cases(maxh)]
     cases += [('reg', c) for c in itertools.product(
         ['empty', 'R0', 'R1', 'extends', 'none-factory', 'named-only', 'None-required'],
         (False, True), ('absent', 'value'))]
